@@ -276,6 +276,21 @@ func monC12(c *drv.Ctx) {
 			if v3.TypeID() != 7 || v3.Msg() != "t-owned" {
 				cs.Fail("exception-decoded-into-struct", M{"via": "transport-exception-target"}, M{"victim_type": v3.TypeID(), "victim_msg": v3.Msg()})
 			}
+			// an EXCEPTION message whose body is cut: an error, and still nothing decoded into the caller's struct
+			hdr := thrift.Binary.MessageBeginLength(method)
+			for cut := hdr; cut < len(b); cut++ {
+				v4 := &base.BaseResp{StatusMessage: "untouched", StatusCode: 99}
+				_, _, err4 := thrift.UnmarshalFastMsg(place(b[:cut], 0), v4)
+				if err4 == nil {
+					cs.Fail("truncated-exception-body-accepted", nil, M{"cut": cut, "len": len(b), "input_hex": hexOf(b[:cut])})
+					break
+				}
+				if v4.StatusMessage != "untouched" || v4.StatusCode != 99 || v4.Extra != nil {
+					cs.Fail("exception-decoded-into-struct", M{"via": "truncated-body"}, M{"victim": fmt.Sprint(v4), "cut": cut})
+					break
+				}
+				cs.C.Obs("truncated exception bodies", 1)
+			}
 			cs.C.Obs("exception messages", 1)
 			cs.Count(true, "exc", method, seq, tid, text)
 			return
